@@ -96,6 +96,12 @@ def c19_3(ctx):
     ok = seq and isinstance(seq[0].body[0], ast.If) and N(seq[0].body[0].test) == NS('len(%s) == %s' % (value, n)) and N(seq[0].body[0].body[0].value) == '%s[%s]' % (value, i)
     if not ok:
         ctx.fail(fi, seq[0] if seq else fi.node, 'a companion sequence of the same length is not indexed by position')
+    else:
+        rec = [r_ for r_ in else_of(seq[0].body[0]) if isinstance(r_, ast.Return)]
+        ctx.count(1)
+        if not rec or N(rec[0].value) != NS('type(%s)([_item_by_i(v, %s, %s) for v in %s])' % (value, i, n, value)):
+            ctx.fail(fi, rec[0] if rec else seq[0], 'a companion sequence of another length is passed on as `%s`: it must be searched member by member and REBUILT WITH ITS OWN TYPE (a tuple stays a tuple), otherwise the broadcast companion reaches the leaves as a different object' % (U(rec[0].value) if rec else '?'),
+                     witness="loop(list)(lambda a, b: a.startswith(b))(['ab', 'cd', 'ef'], ('a', 'c')) needs a tuple")
     last = returns_of(fi.node)
     if not last or U(last[-1].value) != value:
         ctx.fail(fi, fi.node, 'a non-matching companion is not broadcast unchanged')
@@ -254,3 +260,38 @@ def c19_7(ctx):
         ctx.fail(f, f.node, 'an awaitable leaf is not awaited')
     if v not in txt:
         ctx.fail(f, f.node, 'a plain leaf is not returned unchanged')
+
+
+@obligation('C19.8', 'PATH (symbolic summary): closed set of exits', '_waiter:waiter',
+            'EVERY awaitable at any depth is replaced by its result: a container is answered only by rebuilding it from the awaited members (type(value)(gathered)), never by handing the container back as it is on the strength of a look at its members - a shallow look misses awaitables one level further down',
+            axioms=('A4 (asyncio.gather returns results in argument order)',))
+def c19_8(ctx):
+    f = ctx.repo.fn('_waiter:waiter')
+    v = f.params[0]
+    seen = set()
+    want_seq = NS('type({0})(await asyncio.gather(*[waiter(v) for v in {0}]))'.format(v))
+    want_dict = NS('type({0})(dict(zip({0}.keys(), await asyncio.gather(*[waiter(v) for v in {0}.values()]))))'.format(v))
+    for p in sym_paths(f):
+        if p.term != 'return':
+            continue
+        ctx.count(1, f.where(p.node))
+        at = {t: pol for t, pol, _ in p.atoms()}
+        if at.get(NS('isinstance(%s, (list, tuple))' % v)) is True:
+            seen.add('seq')
+            if p.text() != want_seq:
+                ctx.fail(f, p.node, 'a list/tuple is answered with `%s` on the path [%s]; the only exit for a sequence is type(value)(await asyncio.gather(*[waiter(v) for v in value]))' % (
+                    p.text(), ' & '.join(('' if q else 'not ') + t for t, q, _ in p.conds)[:160]), witness='waiter([(coro(), 1), 3])')
+        elif at.get(NS('isinstance(%s, dict)' % v)) is True:
+            seen.add('dict')
+            if p.text() != want_dict:
+                ctx.fail(f, p.node, 'a dict is answered with `%s`; the only exit for a dict zips value.keys() with the awaited values' % p.text())
+        elif any(pol is True and ('Awaitable' in t or 'isawaitable' in t) for t, pol in at.items()):
+            seen.add('await')
+            if p.text() != 'await %s' % v:
+                ctx.fail(f, p.node, 'an awaitable is answered with `%s`, expected await value' % p.text())
+        else:
+            seen.add('leaf')
+            if p.text() != v:
+                ctx.fail(f, p.node, 'a plain leaf is answered with `%s`' % p.text())
+    if not ctx.findings and seen != {'seq', 'dict', 'await', 'leaf'}:
+        ctx.fail(f, f.node, 'waiter no longer has its four exits (sequence, dict, awaitable, leaf): %s' % sorted(seen))
